@@ -43,12 +43,22 @@ std::vector<VariablePtr>::const_iterator Component::ComponentImpl::findVariable(
 
 std::vector<VariablePtr>::const_iterator Component::ComponentImpl::findVariable(const VariablePtr &variable) const
 {
+    // Prefer the variable itself over a structurally equal sibling.
+    auto result = std::find(mVariables.begin(), mVariables.end(), variable);
+    if (result != mVariables.end()) {
+        return result;
+    }
     return std::find_if(mVariables.begin(), mVariables.end(),
                         [=](const VariablePtr &v) -> bool { return v->equals(variable); });
 }
 
 std::vector<ResetPtr>::const_iterator Component::ComponentImpl::findReset(const ResetPtr &reset) const
 {
+    // Prefer the reset itself over a structurally equal sibling.
+    auto result = std::find(mResets.begin(), mResets.end(), reset);
+    if (result != mResets.end()) {
+        return result;
+    }
     return std::find_if(mResets.begin(), mResets.end(),
                         [=](const ResetPtr &r) -> bool { return r->equals(reset); });
 }
@@ -251,8 +261,9 @@ bool Component::removeVariable(const VariablePtr &variable)
 {
     auto result = pFunc()->findVariable(variable);
     if (result != pFunc()->mVariables.end()) {
+        // Update the variable that is actually removed (it may only be equal to the one given).
+        (*result)->pFunc()->removeParent();
         pFunc()->mVariables.erase(result);
-        variable->pFunc()->removeParent();
         return true;
     }
 
